@@ -136,3 +136,19 @@ contract(
              "ip_address=spec.identity.dotted(ip), state=state)",
              "spec.encap.try_parse_frame(t.sent[0]) == (0x63, session, b'_pycomm_', ('empty',))"],
     props=["C16", "C11"])
+
+# the default route of an unconnected message is the driver's CURRENT route (LogixDriver shortens it after identifying a Micro800)
+contract(
+    id="generic.route.current", func="pycomm3.cip_driver.CIPDriver.generic_message",
+    call="d.generic_message(service=0x0e, class_code=1, instance=1, attribute=1, connected=False, unconnected_send=True, route_path=True)",
+    bind={"path": ["'10.0.0.1/bp/1/enet/192.168.1.7/bp/0'", "'10.0.0.1/bp/2'"], "before": ["0", "1", "2"]},
+    params={"session": P.int(1, 0xFFFFFFFF), "cid": P.bytes(len=4)},
+    setup=DRV + ["t = spec.env.Transport([spec.msgrouter.unconnected_reply(0x0e, 0, b'ok')] * (before + 1))", "d._sock = t",
+                 "earlier = [d.generic_message(service=0x0e, class_code=1, instance=1, attribute=1, connected=False, unconnected_send=True, "
+                 "route_path=True) for _ in range(before)]",
+                 "removed = d._cfg['cip_path'].pop()",
+                 "us = lambda: spec.msgrouter.try_parse_unconnected_send(spec.encap.try_parse_frame(t.sent[-1])[3][1])"],
+    ensures=["len(t.sent) == before + 1", "us() is not None",
+             "us()[1] == (spec.msgrouter.route_segments([]) if path == '10.0.0.1/bp/2' else "
+             "spec.msgrouter.route_segments([(1, b'\\x01'), (2, b'192.168.1.7')]))", "result.value == b'ok'"],
+    props=["C14", "C15"])
